@@ -234,6 +234,7 @@ class Folder:
 
     def e_Constant(self, e, env): return e.value
     def e_Name(self, e, env):
+        if e.id == 'next' and e.id not in env: return ('builtin-next',)
         if e.id in env:
             v = env[e.id]
             if isinstance(v, LazyImport):
@@ -372,6 +373,11 @@ class Folder:
         for k in e.keywords:
             if k.arg is None: kw.update(self.expr(k.value, env))
             else: kw[k.arg] = self.expr(k.value, env)
+        if isinstance(e.func, ast.Name) and e.func.id == 'next' and 'next' not in env and 1 <= len(args) <= 2 and not kw:
+            seq = list(args[0])          # generators are evaluated eagerly here: next() is the first element
+            if seq: return seq[0]
+            if len(args) == 2: return args[1]
+            raise _Raise('StopIteration')
         if isinstance(f, FuncConst): return self.call(f, args, kw)
         if isinstance(f, tuple) and f[0] == 'recmeth': return self.call(f[2], [f[1]] + args, kw)
         if isinstance(f, tuple) and f[0] == 'recbound': return getattr(f[1], f[2])(*args, **kw)
@@ -435,3 +441,52 @@ class Folder:
 def _load(t):
     t2 = ast.parse(ast.unparse(t), mode='eval').body
     return t2
+
+
+def probe_first_match(fn, menv, self_obj=None, max_patterns=40):
+    """Reconstruct the ordered decision list of a first-match classifier `fn(self?, code)` whatever its control flow (if-chain, loop
+    over a table, next(...), any(...)): the function is folded with the code replaced by a token and every `<pattern>.match/search/
+    fullmatch(token)` intercepted.  Pass 0 answers "no match" everywhere and records the patterns in the order they are consulted;
+    pass k answers "match" at the k-th consultation only and records what the function then returns (or raises).
+    Returns [(pattern name or text, RegexConst, outcome)] and the outcome when nothing matches."""
+    TOKEN = '<code>'
+
+    class _P(Folder):
+        def __init__(self, hit):
+            Folder.__init__(self)
+            self.hit, self.seen = hit, []
+
+        def e_Call(self, e, env):
+            if isinstance(e.func, ast.Attribute) and e.func.attr in ('match', 'search', 'fullmatch') and len(e.args) == 1 and not e.keywords:
+                try:
+                    target = self.expr(e.func.value, env)
+                    arg = self.expr(e.args[0], env)
+                except Unfoldable:
+                    target = arg = None
+                if isinstance(target, RegexConst) and arg == TOKEN:
+                    name = None
+                    for k_, v_ in menv.items():
+                        if v_ is target:
+                            name = k_
+                            break
+                    self.seen.append((name or target.pattern, target))
+                    if len(self.seen) > max_patterns:
+                        raise Unfoldable('too many pattern consultations')
+                    return ('matched',) if len(self.seen) - 1 == self.hit else None
+            return Folder.e_Call(self, e, env)
+
+    def run(hit):
+        F = _P(hit)
+        a = fn.args.args
+        args = ([self_obj] if (a and a[0].arg in ('self', 'cls')) else []) + [TOKEN]
+        try:
+            out = ('returns', F.call(FuncConst(fn, menv), args, {}))
+        except _Raise as ex:
+            out = ('raises', ex.name)
+        return F.seen, out
+    seen0, none_out = run(-1)
+    table = []
+    for k in range(len(seen0)):
+        seen_k, out = run(k)
+        table.append((seen0[k][0], seen0[k][1], out))
+    return table, none_out
